@@ -119,7 +119,7 @@ NOT_APPLICABLE = {
 PENDING_REASON = "check not built yet in this commit (static rule set designed in DESIGN.md, implementation pending)"
 
 
-REF_PROPS = {"C01", "C02", "C03", "C04", "C05", "C06", "C07", "C08", "C09", "C10", "C11", "C14", "C15", "C16", "C17", "C18", "C19", "C20"}
+REF_PROPS = {"C01", "C02", "C03", "C04", "C05", "C06", "C07", "C08", "C09", "C10", "C11", "C13", "C14", "C15", "C16", "C17", "C18", "C19", "C20"}
 REF_TECH = "; value-numbering folds (global value numbering over the Python syntax tree) of the functions on the property's " \
            "evaluation path compared with their confirmed reference bodies"
 REF_TEXT = " In addition every library function on the property's evaluation path must fold (returned value, visible effects, " \
